@@ -59,17 +59,20 @@ theorem C08_goodbyes (h h' : Host) (s : Svc) (oid : Nat) (now : Int) (out : List
 
 /-- **Goodbyes, as a run.**  (`C08_goodbyes` speaks about the task the block creates; this is what a *run* puts on the wire.)
 Unregister `s` on a host that is not closed, then the three steps of the task — due at `now`, `now + 125`, `now + 250` — with any
-enabled blocks before and between them that are quiet for the object (`Block.quietFor`: queries answered, queue insertions and timers,
-other services registered, updated, unregistered, their tasks, unregister-all — everything except `_close`, a second unregister of the
-same object and foreign steps of its goodbye tasks): the goodbye datagram of `s` — TTL-0 PTR, SRV, TXT, and every address and the NSEC
-record iff no still-registered service uses the host name (contents: `C08_goodbyes`) — is multicast by each of the three steps.
-`_partial`, two named hypotheses, both exactly the input class of a known finding:
-* `hm*` exclude `_close` before the third goodbye — `C08:goodbyes-cut-by-close` (`async_close` does not wait for a goodbye task that the
-  application did not await; `done` makes `async_send` a no-op);
-* the run is a run of the *machine*, in which an object is never mutated under its tasks; the library itself does that when the same
-  `ServiceInfo` is handed to `async_register_service` again at once — `C08:reused-info-renamed-before-goodbye` (D27, repaired): over the extended machine `Host.xrun` the full statement is
-  `C08_goodbyes_run_full` (refuted for the code before the repair: `…_refuted_without_snapshot`).
-That the three steps *are* executed at their due instants is the loop axiom (DESIGN §4), checked on every replayed trace. -/
+enabled blocks before and between them that are quiet for the object (`Block.quietFor`): the goodbye datagram of `s` — TTL-0 PTR, SRV,
+TXT, and every address and the NSEC record iff no still-registered service uses the host name (contents: `C08_goodbyes`) — is multicast
+by each of the three steps.  `_partial`; what is **assumed**, hypothesis by hypothesis:
+* `hrun` already contains the three blocks `.task oid (some 0) … now / now+125 / now+250` and says they are enabled: that a due task step
+  *is* executed at its due instant is the loop axiom (DESIGN §4; checked on every replayed trace, not proved) — proved here is what the
+  steps emit, and that nothing quiet in between can remove, stop or alter the task;
+* `hm*` (`Block.quietFor`) exclude (a) `_close` before the third goodbye — the input class of the known finding `C08:goodbyes-cut-by-close`
+  (`done` makes `async_send` a no-op); (b) a second `async_unregister_service` of the *same object* and foreign steps of its goodbye tasks —
+  not a finding: with two sequences of one object in flight the blocks `.task oid (some 0) ad due` do not say whose step they are (the
+  machine identifies a task by object, TTL and due time); the harness generates double unregisters and pairs each goodbye with its call;
+* `hfresh` (no goodbye task of this object pending at the call) — the same identification issue, not a finding;
+* the run is a run of the *machine*, in which an object is never mutated under its tasks.  Over the extended machine `Host.xrun`, where a
+  re-registration may rename the object meanwhile (D27), the full statement is `C08_goodbyes_run_full` (refuted for the code before the
+  repair: `…_refuted_without_snapshot`). -/
 theorem C08_goodbyes_run_partial (h0 : Host) (hnd : h0.done = false) (s : Svc) (oid : Nat) (now : Int)
     (hfresh : h0.tasks.filter (isBye oid) = []) (mid0 mid1 mid2 : List Block)
     (hm0 : ∀ b ∈ mid0, b.quietFor oid = true) (hm1 : ∀ b ∈ mid1, b.quietFor oid = true) (hm2 : ∀ b ∈ mid2, b.quietFor oid = true)
